@@ -1,4 +1,5 @@
 mod clock;
+mod gossip;
 mod membership;
 mod selector;
 
@@ -10,6 +11,7 @@ fn main() {
     let rt = tokio::runtime::Builder::new_multi_thread().worker_threads(8).enable_all().build().unwrap();
     match cmd.as_str() {
         "replay-selector" => rt.block_on(selector::replay()),
+        "record-gossip" => rt.block_on(gossip::record()),
         // paused clock on one thread: a timeout fires only when every task is idle, so "the watcher did not
         // publish" is a deterministic observation and not a matter of load
         "replay-membership" => tokio::runtime::Builder::new_current_thread()
